@@ -48,6 +48,12 @@ CLAIMED = {
  "C08": dict(cat="other", technique="solver-driven exhaustive selection of hostile strings (pool^<=N, one field at a time) through the real ReportWriter (pretty+compact), json.loads, ReportReader and a second writer pass; document value oracle independent of the writer",
              text="Bounded-exhaustive through the solver: every string up to N characters over a 19-character pool in each of 12 string fields for several report shapes. Symbolic strings through the json module were probed and are not decidable with CrossHair (stated in DESIGN.md); integers are concrete sentinels.",
              ref="DESIGN.md 3/C08"),
+ "C09": dict(cat="other", technique="one inductive step of the real scan_command over an in-memory FS from a solver-chosen arbitrary (tree, cache) state; analysis = uninterpreted function with call recorder",
+             text="Complete over the abstract state space of the pool (every tree x every cache x version), and by the state invariant it composes to edit histories of any length; bounded by the pool (2-3 paths, 2-3 contents). The discrete state is selected by the solver; the step runs concretely because the writer formats integers.",
+             ref="DESIGN.md 3/C09"),
+ "C10": dict(cat="fault_enumeration", technique="solver-driven enumeration of crash points / structural faults of the cache document through the real scan_command over the in-memory FS, with a follow-up scan on the state left behind",
+             text="Every character offset of the cache documents of three report shapes (pretty and compact), a set of non-JSON texts, every JSON path deleted or retyped, and all cache-directory states; quick skips alternate offset windows of the largest document, thorough is exhaustive.",
+             ref="DESIGN.md 3/C10"),
 }
 NA = {}
 def main():
